@@ -41,10 +41,11 @@ theorem pruns_put_any (p n : Nat) (hp : p ≤ 3) (hn : n < 2 ^ 32) :
 
 end
 
-/-- The core, for whatever bytes `pb` the PUT takes. -/
-theorem py2_str_pvm_core (p : Nat) (hp : p ≤ 2) (pb : Bytes) (s : Bytes) (hlen : s.length < 2 ^ 32)
+/-- The core: one instruction `lb` that pushes `v`, then whatever bytes `pb` the PUT takes, then STOP. -/
+theorem py2_leaf_pvm_core (p : Nat) (hp : p ≤ 2) (lb pb : Bytes) (v : PyVal)
+    (hstr : PRunsP (ecfg p) lb (fun _ => True) (fun st st' => st'.stack = v :: st.stack))
     (hputr : PRunsP (ecfg p) pb (fun st => ∃ r rest, st.stack = r :: rest) (fun st st' => st'.stack = st.stack)) :
-    ∃ st', pvmLoad ((if p ≥ 2 then [0x80, UInt8.ofNat p] else []) ++ (py2StrBody p s ++ pb) ++ [46]) = (.ok (.str2 s), st', []) := by
+    ∃ st', pvmLoad ((if p ≥ 2 then [0x80, UInt8.ofNat p] else []) ++ (lb ++ pb) ++ [46]) = (.ok v, st', []) := by
   have hpb : (UInt8.ofNat p).toNat = p := by simp [UInt8.toNat_ofNat']; omega
   let st1 : PState := { proto := if p ≥ 2 then p else 0 }
   have hpo : PProtoOK (ecfg p) st1 := by
@@ -55,25 +56,23 @@ theorem py2_str_pvm_core (p : Nat) (hp : p ≤ 2) (pb : Bytes) (s : Bytes) (hlen
       simp [h2, h3, h1]
     · have h1 : (p : Int) ≤ 2 := by omega
       simp [h2, h1]
-  have hstr : PRunsP (ecfg p) (py2StrBody p s) (fun _ => True) (fun st st' => st'.stack = PyVal.str2 s :: st.stack) :=
-    PRunsP.one (parses_py2StrBody p s hlen) fun st _ _ => ⟨ppush st (.str2 s), by simp [pexec], rfl, rfl⟩
-  have hboth := PRunsP.seq hstr hputr (fun st st1 _ _ e => ⟨PyVal.str2 s, st.stack, e⟩)
+  have hboth := PRunsP.seq hstr hputr (fun st st1 _ _ e => ⟨v, st.stack, e⟩)
   obtain ⟨is, hpar, hnofr, hrun⟩ := hboth
   obtain ⟨st2, e2, _, stm, _, hq1, hq2⟩ := hrun st1 hpo trivial
-  have hs2 : st2.stack = PyVal.str2 s :: st1.stack := by rw [hq2]; exact hq1
-  have hbody : ∀ fuel, ((py2StrBody p s ++ pb) ++ [46]).length < fuel →
-      pvmLoop fuel st1 ((py2StrBody p s ++ pb) ++ [46]) = (.ok (.str2 s), { st2 with stack := st1.stack }, []) := by
+  have hs2 : st2.stack = v :: st1.stack := by rw [hq2]; exact hq1
+  have hbody : ∀ fuel, ((lb ++ pb) ++ [46]).length < fuel →
+      pvmLoop fuel st1 ((lb ++ pb) ++ [46]) = (.ok v, { st2 with stack := st1.stack }, []) := by
     intro fuel hf
-    rw [pvmLoop_fuel fuel (((py2StrBody p s ++ pb) ++ [46]).length + 1 + is.length) st1 ((py2StrBody p s ++ pb) ++ [46]) hf (by omega)]
-    exact pvm_of_run st1 st2 (py2StrBody p s ++ pb) is (.str2 s) st1.stack hpar hnofr e2 hs2 ((py2StrBody p s ++ pb) ++ [46]).length
+    rw [pvmLoop_fuel fuel (((lb ++ pb) ++ [46]).length + 1 + is.length) st1 ((lb ++ pb) ++ [46]) hf (by omega)]
+    exact pvm_of_run st1 st2 (lb ++ pb) is v st1.stack hpar hnofr e2 hs2 ((lb ++ pb) ++ [46]).length
   refine ⟨{ st2 with stack := st1.stack }, ?_⟩
   unfold pvmLoad
   by_cases h2 : p ≥ 2
   · simp only [h2, if_true]
-    have e0 : ([0x80, UInt8.ofNat p] ++ (py2StrBody p s ++ pb) ++ [46]) = 0x80 :: (UInt8.ofNat p :: ((py2StrBody p s ++ pb) ++ [46])) := by simp
+    have e0 : ([0x80, UInt8.ofNat p] ++ (lb ++ pb) ++ [46]) = 0x80 :: (UInt8.ofNat p :: ((lb ++ pb) ++ [46])) := by simp
     rw [e0]
-    have hstep := pvmLoop_step ((0x80 :: (UInt8.ofNat p :: ((py2StrBody p s ++ pb) ++ [46]))).length) {} { proto := p } 0x80
-      (UInt8.ofNat p :: ((py2StrBody p s ++ pb) ++ [46])) ((py2StrBody p s ++ pb) ++ [46]) (.proto p)
+    have hstep := pvmLoop_step ((0x80 :: (UInt8.ofNat p :: ((lb ++ pb) ++ [46]))).length) {} { proto := p } 0x80
+      (UInt8.ofNat p :: ((lb ++ pb) ++ [46])) ((lb ++ pb) ++ [46]) (.proto p)
       (by simp [parseArg_128, Rd.map, Rd.bind, readByte, Rd.pure, hpb]) rfl rfl (by simp [pexec]; omega)
     rw [hstep]
     have : ({ proto := p } : PState) = st1 := by simp [st1, h2]
@@ -88,12 +87,14 @@ theorem py2_str_pvm_core (p : Nat) (hp : p ≤ 2) (pb : Bytes) (s : Bytes) (hlen
 theorem C06_py2_str_pvm (p : Nat) (hp : p ≤ 2) (put : Option Nat) (hput : ∀ n, put = some n → n < 2 ^ 32) (s : Bytes)
     (hlen : s.length < 2 ^ 32) :
     ∃ st', pvmLoad (py2StrPickle p put s) = (.ok (.str2 s), st', []) := by
+  have hstr : PRunsP (ecfg p) (py2StrBody p s) (fun _ => True) (fun st st' => st'.stack = PyVal.str2 s :: st.stack) :=
+    PRunsP.one (parses_py2StrBody p s hlen) fun st _ _ => ⟨ppush st (.str2 s), by simp [pexec], rfl, rfl⟩
   unfold py2StrPickle
   cases put with
   | none =>
-    exact py2_str_pvm_core p hp [] s hlen (PRunsP.weaken PRunsP.nil (fun _ h => h) (fun st st' _ _ e => by subst e; rfl))
+    exact py2_leaf_pvm_core p hp _ [] _ hstr (PRunsP.weaken PRunsP.nil (fun _ h => h) (fun st st' _ _ e => by subst e; rfl))
   | some n =>
-    exact py2_str_pvm_core p hp (cpPut p n) s hlen (pruns_put_any p n (by omega) (hput n rfl))
+    exact py2_leaf_pvm_core p hp _ (cpPut p n) _ hstr (pruns_put_any p n (by omega) (hput n rfl))
 
 /-- **C06 (Python 2's str): both unpicklers.**  og-rek's decoder and the model of CPython's unpickler accept what Python 2 writes for a
     str, consume all of it and return the same byte string (a `ByteString` / Go string there, a Python-2 str here). -/
@@ -102,5 +103,43 @@ theorem C06_py2_str_agree (cfg : Cfg) (hook : Hook) (p : Nat) (hp : p ≤ 2) (pu
     (∃ st', decode (goCfg cfg) hook st0 (py2StrPickle p put s) = (.ok (if cfg.su then .bytestr s else .str s), st', [])) ∧
     (∃ st', pvmLoad (py2StrPickle p put s) = (.ok (.str2 s), st', [])) :=
   ⟨C02_py2_str cfg hook p hp put s hlen st0, C06_py2_str_pvm p hp put hput s hlen⟩
+
+/-- **C06 (Python 2's unicode, the Python side)**: valid UTF-8 text (CPython refuses anything else). -/
+theorem C06_py2_unicode_pvm (p : Nat) (hp : p ≤ 2) (put : Option Nat) (hput : ∀ n, put = some n → n < 2 ^ 32) (s bs : Bytes)
+    (hlen : s.length < 2 ^ 32) (hu : pyUtf8Valid true s = true) (h : py2UnicodePickle p put s = some bs) :
+    ∃ st', pvmLoad bs = (.ok (.str s), st', []) := by
+  obtain ⟨tb, htb, hbs⟩ : ∃ tb, (if p = 0 then (py2Rue s).map fun u => 86 :: (u ++ [10]) else some (88 :: (natLE 4 s.length ++ s))) = some tb ∧
+      bs = (if p ≥ 2 then [0x80, UInt8.ofNat p] else []) ++ (tb ++ optPut p put) ++ [46] := by
+    unfold py2UnicodePickle at h
+    cases hx : (if p = 0 then (py2Rue s).map fun u => 86 :: (u ++ [10]) else some (88 :: (natLE 4 s.length ++ s))) with
+    | none => simp [hx] at h
+    | some tb => simp only [hx, Option.map_some, Option.some.injEq] at h; exact ⟨tb, rfl, h.symm⟩
+  have htext : PRunsP (ecfg p) tb (fun _ => True) (fun st st' => st'.stack = PyVal.str s :: st.stack) := by
+    refine PRunsP.one (i := .pushStr s) (Parses.single rfl fun t => ?_) fun st _ _ => ⟨ppush st (.str s), by simp [pexec, pyStr, hu, bind, Except.bind, pure, Except.pure], rfl, rfl⟩
+    by_cases h0 : p = 0
+    · simp only [h0, if_true] at htb
+      cases hr : py2Rue s with
+      | none => simp [hr] at htb
+      | some u =>
+        simp only [hr, Option.map_some, Option.some.injEq] at htb
+        subst htb
+        have := C19_UNICODE_py2 s u t hr
+        simpa using this
+    · simp only [h0, if_false, Option.some.injEq] at htb
+      subst htb
+      have := (C19_counted s t).2.2.1 hlen
+      simpa using this
+  rw [hbs]
+  cases put with
+  | none =>
+    exact py2_leaf_pvm_core p hp _ [] _ htext (PRunsP.weaken PRunsP.nil (fun _ h => h) (fun st st' _ _ e => by subst e; rfl))
+  | some n =>
+    exact py2_leaf_pvm_core p hp _ (cpPut p n) _ htext (pruns_put_any p n (by omega) (hput n rfl))
+
+/-- **C06 (Python 2's unicode): both unpicklers.** -/
+theorem C06_py2_unicode_agree (cfg : Cfg) (hook : Hook) (p : Nat) (hp : p ≤ 2) (put : Option Nat) (hput : ∀ n, put = some n → n < 2 ^ 32)
+    (s bs : Bytes) (hlen : s.length < 2 ^ 32) (hu : pyUtf8Valid true s = true) (h : py2UnicodePickle p put s = some bs) (st0 : DState) :
+    (∃ st', decode (goCfg cfg) hook st0 bs = (.ok (.str s), st', [])) ∧ (∃ st', pvmLoad bs = (.ok (.str s), st', [])) :=
+  ⟨C02_py2_unicode cfg hook p hp put s bs hlen h st0, C06_py2_unicode_pvm p hp put hput s bs hlen hu h⟩
 
 end Ogorek
